@@ -512,6 +512,11 @@ func ruleAuxTypedView(c *Ctx, r *Rep, tier string) {
 					hi, okH = constInt(x.High)
 				}
 				if x.Low != nil || !okH || hi != 2 {
+					// the payload of a text type (H: hexadecimal digits, Z: characters)
+					// is the text itself: a[3:] under the case for that type letter
+					if lo, okL := constInt(x.Low); x.Low != nil && okL && lo == 3 && x.High == nil && underTextCase(fn, x.Block()) {
+						return
+					}
 					why += fmt.Sprintf(" %s at %s takes payload bytes of the aux field directly;", symKey(x), c.Pos(x.Pos()))
 				}
 			case *ssa.IndexAddr:
@@ -536,6 +541,33 @@ func ruleAuxTypedView(c *Ctx, r *Rep, tier string) {
 		})
 		r.Check(why == "", rule, "sam."+name+"#payload", c.Pos(fn.Pos()), "only the tag a[:2], the subtype a[3], Kind() and the typed Value() are printed", "the text formatter bypasses the typed view of the value (Value() decodes width and signedness from the type letter; raw bytes are unsigned):"+why)
 	}
+}
+
+// underTextCase: the block is reached only over the "equal" edge of a
+// comparison with the type letter 'H' or 'Z'.
+func underTextCase(fn *ssa.Function, at *ssa.BasicBlock) bool {
+	for _, b := range fn.Blocks {
+		iff := ifOf(b)
+		if iff == nil || b.Succs[0] == b.Succs[1] {
+			continue
+		}
+		bo, ok := iff.Cond.(*ssa.BinOp)
+		if !ok || (bo.Op != token.EQL && bo.Op != token.NEQ) {
+			continue
+		}
+		k, isK := constInt(bo.Y)
+		if !isK || (k != 'H' && k != 'Z') {
+			continue
+		}
+		edge := 0
+		if bo.Op == token.NEQ {
+			edge = 1
+		}
+		if dominatedByEdge(fn, b, edge, at) {
+			return true
+		}
+	}
+	return false
 }
 
 func ruleTabAuxText(c *Ctx, r *Rep, tier string) {
@@ -920,9 +952,14 @@ func init() {
 			{Name: "ABSENT-FORMS", What: "RNEXT '=' iff the mate reference is the read's reference (all identity patterns); the CIGAR/sequence test only with a sequence present (added after a blind second seed round)", Floor: 3, Run: ruleAbsentForms},
 			{Name: "FMT-STRINGER", What: "no numeric fmt verb is applied to a value with a String method in package sam", Floor: 5, Run: ruleFmtStringer},
 			{Name: "AUX-TYPED-VIEW", What: "aux text formatting prints only the tag, the type letters and the typed Value(), never raw payload bytes", Floor: 2, Run: ruleAuxTypedView},
+			{Name: "AUX-EMPTY", What: "sam.ParseAux lets a five-byte field (an empty value) through to the Z and H cases: the guards on the way demand no more (added for a defect of the unchanged tree, repaired 6d77b09)", Floor: 1, Run: ruleAuxEmpty},
+			{Name: "HEX-TEXT", What: "an H field holds hexadecimal text: NewAux hex-encodes a Hex value, Aux.Value decodes, the formatters print the text without a hexadecimal verb (shared with C05; added for a defect of the unchanged tree, repaired 38d8749)", Floor: 4, Run: ruleHexText},
 			{Name: "TAB-AUXTEXT", What: "ParseAux's type letters = the formatter's kinds; array subtypes and their widths/signedness = the specification's; CIGAR letters agree between format and parse tables", Floor: 10, Run: ruleTabAuxText},
 			{Name: "LINE-READER", What: "sam.Reader.Read: owned line buffer, read-error/last-line classification over all cases, newline and CR cuts under the right guards", Floor: 3, Run: ruleLineReader, Canary: ruleLineReaderCanary, WantFail: []string{"bufc.(*Lines).Next#own-line"}, WantPassMin: 1},
 			{Name: "TAB-CONSUME", What: "CIGAR consumption table and op letters equal the SAM specification's", Floor: 10, Run: ruleTabConsume},
+			{Name: "CIGAR-SPLIT", What: "sam.ParseCigar, splitting a length above 2^28−1: what is left after a piece was taken off is shown positive before an operation is made from it – no zero-length operation is invented, so the CIGAR column reads back as it was written (shared with C16; added after seventh-round seeds C06-h, C16-h)", Floor: 2, Run: ruleCigarSplit},
+			{Name: "PARSE-WIDTH", What: "every strconv.ParseInt/ParseUint in package sam is given the bit size of the type its result is converted to (flags 16, mapping quality 8, the aux integer types): a smaller size refuses values the formatter prints (shared with C19; added after seventh-round seed C19-g)", Floor: 8, Run: ruleParseWidth([]string{"sam"}, 8)},
+			{Name: "PATH-SHARED", What: "a BAM record buffer whose data aliases memory the Reader will reuse is marked shared, so that the record's fields are copies: a record held across the next Read keeps its SAM line (shared with C05; under C06 since seventh-round seed C06-g)", Floor: 1, Run: ruleBufShared},
 			{Name: "TAB-NIBBLE", What: "base code tables are mutually inverse and equal \"=ACMGRSVTWYHKDBN\"; contract/Expand use the high nibble for even positions", Floor: 18, Run: ruleNibble},
 		},
 		Explanation: "A SAM line is eleven columns and a tail of aux fields; round trip needs the writer and the parser to agree, column by column, on the Record field, the offset (1-based positions, Phred+33) and the absent-value spelling, and needs every typed value to be printed through its typed view. COL-SAM lays the two column→field maps side by side; FMT-STRINGER, AUX-TYPED-VIEW and TAB-AUXTEXT cover the ways a value can be printed as something other than itself (a Stringer caught by a numeric verb, raw bytes printed unsigned, a subtype parsed with the wrong width); LINE-READER decides the reader's handling of the last line, CRLF and buffer ownership over all cases of (error, length).",
